@@ -6,3 +6,6 @@ import TruthModel.Props.C11
 import TruthModel.Driver.Sexp
 import TruthModel.Driver.Native
 import TruthModel.Driver.C11
+import TruthModel.Model.InstrIO
+import TruthModel.Driver.C03
+import TruthModel.Props.C03
